@@ -72,7 +72,7 @@ def two_parses(a2: int, b1: int, b2: int, la: bool, lb: bool) -> bool:
     return _outcome(shared, fb, B, lb) == _outcome(DefaultArgsParser(), fb, B, lb)
 
 
-def same_objects(b1: int, b2: int, la: bool, lb: bool, fresh_parser: bool) -> bool:
+def same_objects(b1: int, b2: int, la: bool, lb: bool, fresh_parser: bool, omit: bool) -> bool:
     """
     pre: 0 <= b1 < len(MENU) and 0 <= b2 < len(MENU)
     post: _
@@ -80,22 +80,24 @@ def same_objects(b1: int, b2: int, la: bool, lb: bool, fresh_parser: bool) -> bo
     # the SAME raw-args object and the SAME format object are parsed twice (any two leniency modes), on one parser or on two:
     # the second result depends on its own mode only
     from vf.sym import conc_bool, untraced
-    return untraced(_same_objects_case, SK[PART["fb"]], _pick(b1), _pick(b2), conc_bool(la), conc_bool(lb), conc_bool(fresh_parser))
+    return untraced(_same_objects_case, SK[PART["fb"]], _pick(b1), _pick(b2), conc_bool(la), conc_bool(lb), conc_bool(fresh_parser), conc_bool(omit))
 
 
-def _same_objects_case(fb, t1, t2, la, lb, fresh_parser):
+def _same_objects_case(fb, t1, t2, la, lb, fresh_parser, omit=False):
+    if omit:
+        lb = False          # the second parse does not name its mode: the documented default is strict
     raw = ArgvArgs(["prog", t1, t2])
     shared = DefaultArgsParser()
 
-    def run(parser, lenient):
+    def run(parser, lenient, omitted=False):
         try:
-            a = parser.parse(raw, fb.fmt, lenient)
+            a = parser.parse(raw, fb.fmt) if omitted else parser.parse(raw, fb.fmt, lenient)
         except ALLOWED as e:
             return ("exc", type(e).__name__, str(e))
         return ("ok", a.arguments(False), a.options(False), a.arguments(True), a.options(True))
 
     run(shared, la)
-    second = run(DefaultArgsParser() if fresh_parser else shared, lb)
+    second = run(DefaultArgsParser() if fresh_parser else shared, lb, omit)
     ref_raw = ArgvArgs(["prog", t1, t2])
     try:
         a = DefaultArgsParser().parse(ref_raw, fb.fmt, lb)
@@ -184,6 +186,27 @@ def no_mutation(t1: str, t2: str, lenient: bool) -> bool:
     return raw.tokens == tokens_before and raw.option_tokens == opt_before and _listing(skel.fmt) == listing and argv == snapshot + ["later"] and _declared_ok(skel)
 
 
+def default_ctor(t1: str, t2: str) -> bool:
+    """
+    pre: len(t1) <= 2 and len(t2) <= 2
+    pre: all(c in ALPHA for c in t1) and all(c in ALPHA for c in t2)
+    post: _
+    """
+    # ArgvArgs() without an argument wraps sys.argv: the interpreter's own list stays as it is, however often it is wrapped
+    import sys
+    saved = sys.argv
+    mine = ["prog", t1, t2]
+    sys.argv = mine
+    try:
+        a = ArgvArgs()
+        b = ArgvArgs()
+        ok = sys.argv is mine and mine == ["prog", t1, t2] and a.tokens == [t1, t2] and b.tokens == [t1, t2] and a.tokens is not mine and a.script_name == "prog"
+        a.tokens.append("zz")
+        return ok and mine == ["prog", t1, t2] and b.tokens == [t1, t2]
+    finally:
+        sys.argv = saved
+
+
 def no_mutation_menu(k1: int, k2: int, lenient: bool) -> bool:
     """
     pre: 0 <= k1 < PART["n"] and 0 <= k2 < PART["n"]
@@ -239,7 +262,8 @@ def conditions(tier):
                           "bounds": "[%r] with %s strict, [m] with %s, then [m', m'] with %s on one parser" % (ma[a1], fa, fb, fa)})
     for fb in (("S1", "S2", "S6") if quick else ("S1", "S2", "S3", "S4", "S5", "S6", "S8")):
         conds.append({"name": "same_objects[%s]" % fb, "fn": same_objects, "timeout": t, "part": {"fb": fb},
-                      "bounds": "one RawArgs object ([m, m'] from %r) and the format object %s parsed twice, each parse strict or lenient, on one parser or two" % (MENU, fb)})
+                      "bounds": "one RawArgs object ([m, m'] from %r) and the format object %s parsed twice, each parse strict or lenient (the second also with the mode left out = strict), on one parser or two" % (MENU, fb)})
+    conds.append({"name": "default_ctor", "fn": default_ctor, "timeout": t, "bounds": "ArgvArgs() on sys.argv = ['prog', t1, t2], tokens of <= 2 chars over {-,f,o,x,=}: sys.argv untouched, wrappers independent"})
     conds.append({"name": "two_parses_twin", "fn": two_parses_twin, "timeout": t, "expect": "refute", "part": {"fa": "S1", "fb": "S1", "a1": 2}, "bounds": "reachability twin"})
     for sk in (("S1", "S4", "S5") if quick else ("S1", "S2", "S3", "S4", "S5", "S8")):
         for l1, l2 in ([(1, 2), (2, 2)] if quick else [(a, b) for a in range(0, 3) for b in range(0, 4)]):
